@@ -3,6 +3,8 @@
 
     batch <oneway 0|1> <pre 0|1> <q0> <gate> <bad> <rows> <calls>
         → q=<q> log=<n.a,…|-> seen=<submit:E<id> | stream:<v,…|->:<E<id>|-> | nothing>
+    prog <pre 0|1> <q0> <gate> <bad> <rows> <ops>     ops: r.<i>.<n>.<a> record on BatchProxy i | c.<i> copy.copy | s.<i>.<0|1> submit
+        → q=<q> log=<…> outs=<seen>|<seen>|…   (one per submit; "-" = no submit)
     seq <q0> <gate> <bad> <rows> <calls>
         → q=<q> log=<n.a,…|-> vals=<v,…|-> fail=<E<id>|->
 
@@ -87,6 +89,17 @@ def showSeen : Seen Nat Nat → String
   | .stream vs r => s!"stream:{showVals vs}:{showExc r}"
   | .nothing => "nothing"
 
+def parseOps (s : String) : Option (List (BOp Nat Nat)) :=
+  (splitList s).mapM fun e =>
+    match e.splitOn "." with
+    | ["r", i, n, a] =>
+      match i.toNat?, n.toNat?, a.toNat? with
+      | some i, some n, some a => some (.record i (n, a))
+      | _, _, _ => none
+    | ["c", i] => i.toNat?.map .copy
+    | ["s", i, ow] => i.toNat?.map (fun i => .submit i (ow == "1"))
+    | _ => none
+
 def step : List String → String
   | ["batch", ow, pre, q0, gate, bad, rows, calls] =>
     match q0.toNat?, parseGate gate, parseNatList bad, parseRows rows, parseCalls calls with
@@ -95,6 +108,14 @@ def step : List String → String
       let p : Option Nat := if pre == "1" then some 109 else none
       let (s, seen) := clientBatch p o (ow == "1") (q0, []) cs
       s!"q={s.1} log={showLog s.2} seen={showSeen seen}"
+    | _, _, _, _, _ => "bad-op"
+  | ["prog", pre, q0, gate, bad, rows, ops] =>
+    match q0.toNat?, parseGate gate, parseNatList bad, parseRows rows, parseOps ops with
+    | some q0, some g, some b, some r, some os =>
+      let o := tabObj ⟨g, b, r⟩
+      let p : Option Nat := if pre == "1" then some 109 else none
+      let (s, seens) := runProg p o (q0, []) [[]] os
+      s!"q={s.1} log={showLog s.2} outs={if seens.isEmpty then "-" else "|".intercalate (seens.map showSeen)}"
     | _, _, _, _, _ => "bad-op"
   | ["seq", q0, gate, bad, rows, calls] =>
     match q0.toNat?, parseGate gate, parseNatList bad, parseRows rows, parseCalls calls with
